@@ -273,6 +273,43 @@ static void fixed_tuple_faults(vh_rng* r, int size, int is_static) {
   for (int i = 0; i < size; i++) { del_raw(elems[i]); }
 }
 
+/* ---------- Strings that cannot be reallocated: $S(buffer) ----------
+** A String on the stack wraps the caller's character buffer.  Every operation that would need another buffer (resize
+** to ANY size -- larger, equal, smaller, zero --, concat, append, assign, a formatted write, reading into it) raises
+** ValueError and leaves the caller's characters as they were. */
+static char* ss_buf; enum { SS_CAP = 48 };
+static void dump_stack_string(var s, char* out) {
+  size_t off = (size_t)snprintf(out, DUMPCAP, "val=%s:len=%zu:", ((struct String*)s)->val == ss_buf ? "caller-buffer" : "OTHER", len(s));
+  for (int i = 0; i < SS_CAP && off + 3 < DUMPCAP; i++) { off += (size_t)snprintf(out + off, DUMPCAP - off, "%02x", (unsigned char)ss_buf[i]); }
+}
+static void stack_string_faults(vh_rng* r, size_t L) {
+  char buf[SS_CAP]; memset(buf, 0x7e, sizeof buf);
+  for (size_t i = 0; i < L; i++) { buf[i] = (char)('a' + vh_below(r, 26)); }
+  buf[L] = 0;
+  ss_buf = buf;
+  var s = $S(buf);
+  cur_kind = "stack-String"; cur_size = L;
+  size_t sizes[] = { L + 1, L + 20, L, L ? L - 1 : 0, L / 2, 0 };
+  const char* names[] = { "len+1", "len+20", "len", "len-1", "len/2", "zero" };
+  for (int k = 0; k < 6; k++) { FAULT(s, dump_stack_string, FC_RESIZE, "resize", names[k], resize(s, sizes[k])); }
+  FAULT(s, dump_stack_string, FC_RESIZE, "concat", "one-character", concat(s, $S("x")));
+  FAULT(s, dump_stack_string, FC_RESIZE, "concat", "empty", concat(s, $S("")));
+  FAULT(s, dump_stack_string, FC_RESIZE, "append", "one-character", append(s, $S("y")));
+  FAULT(s, dump_stack_string, FC_RESIZE, "assign", "shorter", assign(s, $S("")));
+  FAULT(s, dump_stack_string, FC_RESIZE, "assign", "longer", assign(s, $S("a string that is longer than the buffer's text")));
+  FAULT(s, dump_stack_string, FC_RESIZE, "assign", "itself", assign(s, s));
+  FAULT(s, dump_stack_string, FC_RESIZE, "print_to", "at-zero", print_to(s, 0, "%i", $I(7)));
+  FAULT(s, dump_stack_string, FC_RESIZE, "print_to", "at-len", print_to(s, (int)L, "z"));
+  FAULT(s, dump_stack_string, FC_RESIZE, "look_from", "quoted-text", look_from(s, $S("\"q\""), 0));
+  /* still usable for what needs no other buffer */
+  vh_evals(2);
+  char first[2] = { buf[0], 0 };
+  if (len(s) != L || strlen(buf) != L || (L > 0 && !mem(s, $S(first))) || hash(s) != hash($S(buf))) {
+    vh_violation("C12:String:not-usable-after-failed-operations", "a stack String of %zu characters disagrees with its buffer after the refused operations", L);
+  }
+  vh_count("stack_strings_faulted");
+}
+
 /* ---------- maps ---------- */
 
 static void map_faults(vh_rng* r, int is_tree, int strkeys, int size) {
@@ -467,6 +504,7 @@ static void fixed(void) {
   range_faults(0, 10, 1); range_faults(0, 10, 3); range_faults(5, 5, 1); range_faults(-4, 9, -2); range_faults(0, 0, 1);
   scalar_faults();
   for (int st = 0; st < 2; st++) { for (int size = 0; size <= 8; size++) { fixed_tuple_faults(&r, size, st); } }
+  for (size_t L = 0; L <= 26; L++) { stack_string_faults(&r, L); }
   vh_info("faults run %ld distinct %ld", faults_run, distinct_faults);
   vh_count_n("distinct_faults_in_table", (uint64_t)distinct_faults);
   vh_count_n("faults_run", (uint64_t)faults_run);
@@ -480,7 +518,7 @@ static void case_random(vh_rng* r, long index) {
     case 0: { int kind = (int)vh_below(r, 3); int et = kind == SK_TUPLE ? 0 : (int)vh_below(r, 2); seq_faults(r, kind, et, size); vh_op("%s size %d", SKNAME[kind], size);
               int ts = (int)vh_below(r, 9), st = (int)vh_below(r, 2); vh_op("%s Tuple of %d items", st ? "static" : "stack", ts); fixed_tuple_faults(r, ts, st); break; }
     case 1: { int tree = (int)vh_below(r, 2), sk = (int)vh_below(r, 2); if (size > 60) { size = 60; } map_faults(r, tree, sk, size); vh_op("%s strkeys=%d size %d", tree ? "Tree" : "Table", sk, size); break; }
-    case 2: { char t[80]; size_t n = vh_below(r, 60); for (size_t i = 0; i < n; i++) { t[i] = (char)(32 + vh_below(r, 90)); } t[n] = 0; string_faults(t); vh_op("String \"%s\"", t); break; }
+    case 2: { stack_string_faults(r, (size_t)vh_below(r, 27)); char t[80]; size_t n = vh_below(r, 60); for (size_t i = 0; i < n; i++) { t[i] = (char)(32 + vh_below(r, 90)); } t[n] = 0; string_faults(t); vh_op("String \"%s\"", t); break; }
     default: { int64_t a = vh_range(r, -20, 20), b = vh_range(r, -20, 20), st = vh_range(r, -4, 4); range_faults(a, b, st); vh_op("range(%" PRId64 ",%" PRId64 ",%" PRId64 ")", a, b, st); break; }
   }
   vh_count_n("faults_run", (uint64_t)(faults_run - f0));
